@@ -54,8 +54,10 @@ var c10Zones = []*time.Location{
 	time.FixedZone("", -43200),
 }
 
-func (e *C10Ev) event() *eventbus.Event {
-	return &eventbus.Event{Type: e.Type, Data: json.RawMessage(e.Data), Timestamp: time.Unix(e.Sec, int64(e.Nano)).In(c10Zones[e.Zone%len(c10Zones)])}
+// event builds the stored event; seq makes every appended event unique ({"n":seq,"v":<generated document>}),
+// so that a shifted (gapped or repeated) result is never mistaken for a corrupted field.
+func (e *C10Ev) event(seq int) *eventbus.Event {
+	return &eventbus.Event{Type: e.Type, Data: json.RawMessage(fmt.Sprintf(`{"n":%d,"v":%s}`, seq, e.Data)), Timestamp: time.Unix(e.Sec, int64(e.Nano)).In(c10Zones[e.Zone%len(c10Zones)])}
 }
 
 func genJSON(rt *rapid.T, depth int) any {
@@ -195,6 +197,7 @@ type c10Model struct {
 	byO  map[eventbus.Offset]int // offset -> index into offs
 	subs map[string]eventbus.Offset
 	appendOffs []eventbus.Offset
+	seq        int
 }
 
 func (m *c10Model) note(off eventbus.Offset, pos int, prov string) {
@@ -290,7 +293,7 @@ func (sc *C10Scenario) Execute(t *testing.T) *core.Outcome {
 					viol("read-mismatch", "content/resumed-from-"+prov, "%s from a %s offset at position %d: event %d is type=%q data=%s, expected type=%q data=%s (gap, repeat or corruption)", what, prov, pos, i, trunc(g.Type), trunc(string(g.Data)), trunc(w.Type), trunc(string(w.Data)))
 					return false
 				}
-				if !g.Timestamp.Equal(w.Timestamp) {
+				if !g.Timestamp.Equal(w.Timestamp) { // same unique event (type and data match), different instant
 					viol("timestamp-changed", "timestamp", "%s: event at position %d came back with timestamp %v, appended %v", what, pos+i, g.Timestamp, w.Timestamp)
 					return false
 				}
@@ -319,7 +322,8 @@ func (sc *C10Scenario) Execute(t *testing.T) *core.Outcome {
 		runOp := func(op C10Op) {
 			switch op.Kind {
 			case "append":
-				ev := op.Ev.event()
+				m.seq++
+				ev := op.Ev.event(m.seq)
 				rec.Add("append", len(m.log), 0, "")
 				off, err := st.Append(ctx, ev)
 				if err != nil {
@@ -516,7 +520,7 @@ func (sc *C10Scenario) concurrentPhase(out *core.Outcome, st eventbus.EventStore
 			for i, op := range l {
 				switch op.Kind {
 				case "append":
-					ev := op.Ev.event()
+					ev := op.Ev.event(ids[i])
 					ev.Type = fmt.Sprintf("c-%d", ids[i])
 					call := rec.Add("c-append", ids[i], 0, "")
 					off, err := st.Append(ctx, ev)
